@@ -770,13 +770,13 @@ def tables_of(dv, actions):
           if src is not None:
             out.add(src.tableId)
       elif a[1] == "_grist_Tables_column" and len(a) > 2:
-        rows = a[2] if isinstance(a[2], list) else [a[2]]
+        rows = [x for x in (a[2] if isinstance(a[2], list) else [a[2]]) if isinstance(x, int)]
         for r in rows:
           c = dv.col_by_ref.get(r)
           if c is not None:
             out.add(c.table.tableId)
       elif a[1] == "_grist_Tables" and len(a) > 2:
-        rows = a[2] if isinstance(a[2], list) else [a[2]]
+        rows = [x for x in (a[2] if isinstance(a[2], list) else [a[2]]) if isinstance(x, int)]
         for r in rows:
           t = dv.table_by_ref.get(r)
           if t is not None:
